@@ -125,3 +125,30 @@ def replay(tables: List[dict], res: TLCResult, name: str, versions=None, timeout
     for v in out:
         out[v]["cases"] = {c["tid"]: c for c in cases}
     return out
+
+
+def validate_traces(traces: List[dict], name: str, timeout: int = 900):
+    """Pattern T: check recorded H1 traces against ExtractIterTrace.  Returns (TLCResult, verdicts) where
+    verdicts[i] = {"accepted": bool, "prefix": longest matched prefix, "final": .., "equiv": .., "obad": [...],
+    "oexc": [...]} for trace i (0-based)."""
+    d = BUILD / "m1"
+    d.mkdir(parents=True, exist_ok=True)
+    path = d / f"{name}_traces.json"
+    path.write_text(json.dumps(traces))
+    res = run_tlc("ExtractIterTrace", "EI_trace.cfg", workers=1, timeout=timeout, coverage=False,
+                  env={"EI_TRACES": str(path)}, name=f"m1trace_{name}")
+    if not res.ok:
+        raise MachineryError(f"trace validation run failed: {res.violated} {res.trace_text[-1500:]}")
+    verdicts = [{"accepted": False, "prefix": 0, "final": False, "equiv": False, "obad": [], "oexc": []} for _ in traces]
+    for e in res.emitted:
+        v = verdicts[e["tid"] - 1]
+        n = len(traces[e["tid"] - 1]["events"])
+        v["prefix"] = max(v["prefix"], min(e["l"] - 1, n))
+        if e["l"] > n:
+            v["accepted"] = True
+            if e.get("final") and not v["final"]:
+                v["final"] = True
+                v["equiv"] = bool(e.get("equiv"))
+                v["obad"] = list(e.get("obad", []))
+                v["oexc"] = list(e.get("oexc", []))
+    return res, verdicts
